@@ -714,7 +714,7 @@ func TestC16c(t *testing.T) {
 	core.Run(t, core.Spec[CaseC]{
 		Property: "C16", Sub: "c",
 		Rule: "histories over 2-5 connection slots of connect / register / disconnect operations: real websocket service connections (authenticated against the route registered by the real Service.Start) are opened at any point - also after earlier ones have left, a slot can be connected again and again, each time as a new connection - register agent types (pool of 3 names with distinct magic values), service-defined listener kinds (pool of 2) and External-C2 listeners/endpoints (pool of 4) in generated interleaved order - a taken name may be tried again by anybody - and leave (clean close frame or abrupt TCP close) at any point, the rest in a generated final order; after each registration the four registries (Service.Agents, Service.Listeners, ExC2 entries of ts.Listeners, ts.Endpoints) equal the first-come-first-served model; after each disconnect exactly the leaver's items are gone, the operator's own External listener is untouched, and every surviving agent type is relayed (agent request with its magic value through the operator endpoint and every surviving ExC2 endpoint, answered by the owning connection) every surviving ExC2 endpoint still answers, and every surviving listener kind still forwards a start request to its connection. Non-trivial: >=2 connections and a connection that is not the most recently accepted one leaves; distinct = (#connections made, non-last leaves 0/1/2+, connects after a leave 0/1/2+, late joiner leaving while an older connection holds an ExC2 listener 0/1, taken-name attempts 0/1/2+, connections with >=2 items 0/1/2+, kinds registered)",
-		Gen:  genC, Check: checkC, Classify: classifyC,
+		Gen:  genC, Check: shrinkBudget(40*time.Second, checkC), Classify: classifyC,
 		Assumptions: []string{
 			"registrations and disconnects are applied one at a time (orders, not concurrent schedules): each step is followed by a request/reply barrier on the same connection or by the connection goroutine's exit",
 			"the External-C2 route function is invoked directly with a gin test context, as the closure registered in Start() for POST /:endpoint does",
